@@ -699,7 +699,7 @@ impl<'tcx> Ex<'tcx> {
             ("max", n(max)),
             ("argmax", n(argmax as i128)),
         ];
-        if len <= 2048 {
+        if len <= 70000 {
             o.push(("values", arr(vals.iter().map(|v| n(*v)).collect())));
         }
         Some(obj(o))
